@@ -14,6 +14,7 @@ package c08sched
 
 import (
 	"encoding/json"
+	"flag"
 	"fmt"
 	"os"
 	"reflect"
@@ -85,6 +86,7 @@ type Case struct {
 	Tick  int64  `json:"tick"`
 	Wheel int64  `json:"wheel"`
 	Pool  bool   `json:"pool,omitempty"`
+	Zone  string `json:"zone,omitempty"` // time.Local during the case (default UTC); such cases are judged by the monitor only
 	Ops   []Op   `json:"ops"`
 	Start int64  `json:"start"` // observed: UnixNano at the start of the bubble
 	Impl  []Res  `json:"impl"`  // per op: what ran since the previous op; then the op's own result (not for "end")
@@ -276,6 +278,13 @@ func (r *runner) exec(i int, o *Op) (res rawRes) {
 
 func runImpl(t *testing.T, c *Case) {
 	c.Impl, c.Regs, c.Clean = nil, nil, ""
+	time.Local = time.UTC
+	if c.Zone != "" {
+		if loc, err := time.LoadLocation(c.Zone); err == nil {
+			time.Local = loc
+		}
+		defer func() { time.Local = time.UTC }()
+	}
 	var raws []rawRes
 	var r *runner
 	func() {
@@ -558,6 +567,22 @@ func monitor(c *Case) (viol []vh.Violation) {
 			if g.Sp.K == "day" && !dayInRange(g.Sp) {
 				continue
 			}
+			if c.Zone != "" {
+				if g.Sp.K == "day" { // a day-moment task must run at its moment of the day, in local time
+					if loc, err := time.LoadLocation(c.Zone); err == nil {
+						lt := time.Unix(0, c.Start+at).In(loc)
+						want := time.Date(lt.Year(), lt.Month(), lt.Day(), int(g.Sp.H), int(g.Sp.M), int(g.Sp.S), 0, loc)
+						if diff := lt.Sub(want); diff < -time.Duration(c.Tick+ms) || diff > time.Duration(2*c.Tick) {
+							if len(viol) < 4 {
+								viol = append(viol, vh.Violation{Kind: "sched:day:moment-drift", Detail: fmt.Sprintf("day-moment task %02d:%02d:%02d in zone %s: firing %d ran at %s (local), %v away from the moment",
+									g.Sp.H, g.Sp.M, g.Sp.S, c.Zone, n, lt.Format("2006-01-02 15:04:05 MST"), diff), Sig: map[string]string{"fn": "day", "zone_rule": "dst"}})
+							}
+							break
+						}
+					}
+				}
+				continue
+			}
 			d, ok := due(c, g, n)
 			if !ok {
 				add(fn, "too-many", fmt.Sprintf("instance %d (name %d, %+v) ran %d times: firing %d at +%dms", id, g.Name, *g.Sp, n, n, e.Ms), nil)
@@ -578,7 +603,7 @@ func monitor(c *Case) (viol []vh.Violation) {
 		if imm != wantImm {
 			add(fn, "immediate-call", fmt.Sprintf("instance %d (%+v): %d immediate calls, expected %d", id, *g.Sp, imm, wantImm), nil)
 		}
-		if g.Sp.K == "day" && !dayInRange(g.Sp) {
+		if (g.Sp.K == "day" && !dayInRange(g.Sp)) || c.Zone != "" {
 			continue
 		}
 		// firings that had to happen before the task was cancelled / the run ended
@@ -971,12 +996,18 @@ func record(t *testing.T, out *vh.Out, c *Case) {
 		out.Count("scheduler_from", "NewScheduler")
 	}
 	// cancel phase: before the first firing / between firings
-	out.Add(c, coqCase(out.N(), c), rp+cn > 0, v)
+	term := coqCase(out.N(), c)
+	if c.Zone != "" {
+		term = "" // the model has no time zones
+	}
+	out.Add(c, term, rp+cn > 0, v)
 }
 
 var flags vh.Flags
+var dstCases bool
 
 func TestMain(m *testing.M) {
+	flag.BoolVar(&dstCases, "dst", false, "also run day-moment tasks in a zone with daylight saving time (open finding C08-daymoment-dst-drift)")
 	flags = vh.ParseFlags()
 	os.Exit(m.Run())
 }
@@ -1020,6 +1051,17 @@ func TestC08Sched(t *testing.T) {
 		cr, _ := rng.Derive()
 		c := genCase(cr)
 		record(t, out, &c)
+	}
+	if dstCases {
+		// 2000-01-01 .. 2000-04-20 in zones that switch to summer time in between (and one that does not)
+		for _, z := range []string{"Europe/Berlin", "America/New_York", "Asia/Shanghai"} {
+			for _, h := range []int64{8, 2, 23} {
+				c := Case{Tick: 10 * ms, Wheel: 10, Zone: z, Ops: []Op{
+					{At: 2 * ms, K: "reg", Name: 0, Sp: &Spec{K: "day", Since: int64(time.Hour), H: h, M: 30}},
+					{At: 110*day + 5*ms, K: "end"}}}
+				record(t, out, &c)
+			}
+		}
 	}
 	out.Close()
 }
